@@ -15,4 +15,6 @@ import Solvor.Path.Theorems
 #print axioms Solvor.Path.grid_withinTol_iff
 #print axioms Solvor.Path.dijkstra_sound_any_weights
 #print axioms Solvor.Path.dijkstra_certifies
-#print axioms Solvor.Path.astar_certifies_partial
+#print axioms Solvor.Path.astar_sound_any_heuristic
+#print axioms Solvor.Path.astar_certifies
+#print axioms Solvor.Path.floyd_warshall_certifies_partial
